@@ -47,9 +47,14 @@ def cases(tier, seed):
         cfg = scat.gen_config(rng, kind)
         if cfg["theory"]["t"] == "Lens":
             cfg["theory"]["nth"], cfg["theory"]["nphi"] = 12, 20
-        npt = int(rng.integers(2, 7))
+        npt = int(rng.integers(3, 8))
         cfg["det"] = {"t": "points", "x": [float(v) for v in rng.uniform(-2, 4, npt)], "y": [float(v) for v in rng.uniform(-2, 4, npt)],
                       "z": [float(v) for v in rng.uniform(-1.0, 1.5, npt)]}
+        if i % 2 == 0 and "c" in cfg["scat"]:
+            # an axial scan: the later points sit on the axis through the particle centre, one above the other (same polar angle, other distance)
+            cx, cy = cfg["scat"]["c"][0], cfg["scat"]["c"][1]
+            for j in range(npt // 2, npt):
+                cfg["det"]["x"][j], cfg["det"]["y"][j] = cx, cy
         out.append({"id": "zpts-%d" % i, "kind": "zpoints", "ckind": kind, "cfg": cfg, "seed": [seed, "zpts", i], "cost": 6})
     ns = 80 if tier == "quick" else 2000
     for i in range(ns):
